@@ -252,7 +252,7 @@ def run(prop, tier, seed, replay, jobs, no_build, t0):
         "wall_s": round(time.time() - t0, 2),
         "violations": 1 if rc else 0,
     }
-    if not replay:
+    if not replay and not no_build:   # evidence only from complete runs (build + audit included)
         C.write_json(os.path.join(C.EVIDENCE, prop + ".json"), ev)
     print("%s %s seed=%d: theorems %d/%d, cases %d (nontrivial %d), model requests %d, disagreements %d, oracle failures %d, %.1fs"
           % (prop, tier, seed, discharged, len(theorems), len(outs), len(nontriv), len(reqs), len(disagreements), len(failures), time.time() - t0))
